@@ -54,6 +54,22 @@ def cases(tier, rng):
         yield {"k": 303 if "sort" in api else 302, "args": [ds, nets.pits(ds)], "call": {"api": api}, "group": f"rand-{api}"}
         yield {"k": 305, "args": [ds], "call": {"api": "ras"}, "group": "rand-isvalid"}
         yield {"k": 306, "args": [ds], "call": {"api": rng.choice(["vec", "ras"]), "pre": rng.choice([None, "sort", "walk"])}, "group": "rand-repair"}
+        # objects parsed from D8 / LDD rasters whose streams also leave the raster or end at missing cells: those outlets are
+        # pits like the explicit ones, and every cell draining to them is ordered (round-5 seed)
+        if t % 2 == 0:
+            nr_, nc_ = rng.randint(1, 6), rng.randint(2, 6)
+            codes = nets.random_d8_raster(rng, nr_, nc_, p_nodata=rng.choice([0, 0.15]), loopfree=True)
+            for i in range(nr_ * nc_):          # redirect some border cells off the raster
+                r_, c_ = divmod(i, nc_)
+                if codes[i] != 247 and rng.random() < 0.3:
+                    off = [cd for (dr, dc), cd in nets.D8.items() if not (0 <= r_ + dr < nr_ and 0 <= c_ + dc < nc_)]
+                    if off:
+                        codes[i] = rng.choice(off)
+            dsr = nets.d8_decode(codes, nr_, nc_)
+            if nets.pits(dsr):
+                apir = rng.choice(["ras-walk", "ras-sort"])
+                yield {"k": 303 if "sort" in apir else 302, "args": [dsr, nets.pits(dsr)],
+                       "call": {"api": apir, "raster": {"nr": nr_, "nc": nc_, "codes": codes, "ftype": rng.choice(["d8", "ldd"])}}, "group": f"rand-parsed-{apir}"}
         # pits added through the API (with repeated / already-pit locations) before ordering: the model gets the new network
         nonpit = [i for i in range(n) if ds[i] >= 0]
         if nonpit:
@@ -91,7 +107,15 @@ def impl(case):
             return [[int(x) for x in v]] if st == "ok" else [[-2], [st]]
     api = call["api"]
     mk = make_vector if api.startswith("vec") else make_raster
-    st, flw = call_impl(mk, call.get("from", ds))
+    if call.get("raster"):
+        import pyflwdir
+        rs = call["raster"]
+        codes = rs["codes"]
+        if rs["ftype"] == "ldd":
+            codes = [{1: 6, 2: 3, 4: 2, 8: 1, 16: 4, 32: 7, 64: 8, 128: 9, 0: 5, 255: 5, 247: 255}[c] for c in codes]
+        st, flw = call_impl(pyflwdir.from_array, np.array(codes, dtype=np.uint8).reshape(rs["nr"], rs["nc"]), ftype=rs["ftype"])
+    else:
+        st, flw = call_impl(mk, call.get("from", ds))
     if st != "ok":
         return [[-2], [st]]
     if call.get("addpits"):
